@@ -5,7 +5,7 @@ open Model
 open Conv
 open Sexp
 
-type mres = MOk of aff | MPanic | MNonfinite | MList of aff list
+type mres = MOk of aff | MPanic | MNonfinite | MList of aff list | MVec of vec option * bool
 
 let opt = function Some a -> MOk a | None -> MPanic
 let of_opres = function ROk a -> MOk a | RPanic -> MPanic | RNonfinite -> MNonfinite
@@ -64,6 +64,8 @@ let model (op : string) (args : Sexp.t list) : mres =
   | "convert_geq", [f] -> MOk (convert_to (aff_of f) MatrixGeqBias)
   | "convert_biasgeq0", [f] -> MOk (convert_to (aff_of f) MatrixBiasGeqZero)
   | "apply", [f] -> MOk (aff_of f)
+  | "apply_transpose", [f; y; o] -> MVec (apply_transpose_rs (aff_of f) (arg_v y), int_of_nat (arg_n o) = 1)
+  | "reset_row", [f; i] -> opt (reset_row_rs (aff_of f) (arg_n i))
   | _ -> raise (Parse_error ("unknown op " ^ op))
 
 let string_of_aff (a : aff) =
@@ -99,6 +101,15 @@ let check (case : Sexp.t) : unit =
       match r with
       | List [Atom var; Atom oc; rs] ->
         (match m, oc with
+         | MVec (None, _), "panic" -> bump "malformed_both_reject"
+         | MVec (None, _), _ -> viol "outcome" (Printf.sprintf "variant=%s implementation returned %s, model: panic (shape rule of input - bias)" var (Sexp.to_string rs))
+         | MVec (Some v, _), "panic" -> viol "outcome" (Printf.sprintf "variant=%s implementation panicked, model: %s" var (string_of_vec v))
+         | MVec (Some v, orth), _ ->
+           (match (try Some (vec_of rs) with Nonfinite -> None) with
+            | Some w when veqb w v ->
+              bump "mirror_agree";
+              if orth then bump "apply_transpose_orthogonal"
+            | _ -> viol "coef" (Printf.sprintf "variant=%s impl=%s model=%s" var (Sexp.to_string rs) (string_of_vec v)))
          | MPanic, "panic" -> bump "malformed_both_reject"
          | MPanic, _ -> viol "outcome" (Printf.sprintf "variant=%s implementation returned %s, model: panic (guard violated)" var (Sexp.to_string rs))
          | MNonfinite, "panic" -> bump "nonfinite_panic"
